@@ -60,6 +60,12 @@ func oracleC03(u *url.Url, mfn func() *model.URL, how string) *fw.Finding {
 		d = strings.ReplaceAll(strings.ReplaceAll(d, "impl=", "reparsed="), "model=", "original=")
 		return fw.F("reparse-differs", o.Href, "%s: Href %q reparses differently: %s", how, o.Href, d)
 	}
+	// the path is a component too: an opaque string and a list of segments are different records even where both
+	// serialize to the empty string ("foo:" with an empty list path re-parses to "foo:" with an opaque path)
+	var oa, ob bool
+	if p := safely(func() { oa, ob = u.OpaquePath(), r.OpaquePath() }); p == "" && oa != ob {
+		return fw.F("reparse-differs", o.Href, "%s: Href %q reparses to a record whose path is opaque=%v, the original's is opaque=%v", how, o.Href, ob, oa)
+	}
 	return nil
 }
 
